@@ -161,7 +161,7 @@ var stdKey = []byte{0x01, 0x23, 0x45, 0x67, 0x89, 0xab, 0xcd, 0xef, 0xfe, 0xdc, 
 
 func gen(seed uint64, tier string, o *hx.Out) {
 	r := hx.NewRng(seed)
-	nRand, nSpec, nHist, nAlias, histLen, nIter := 300, 300, 40, 120, 12, 2000
+	nRand, nSpec, nHist, nAlias, histLen, nIter := 300, 300, 60, 120, 24, 2000
 	if tier == "thorough" {
 		nRand, nSpec, nHist, nAlias, histLen, nIter = 6000, 4000, 600, 2000, 40, 1000000
 	}
@@ -199,13 +199,14 @@ func gen(seed uint64, tier string, o *hx.Out) {
 			emit(fmt.Sprintf("D %d %s %s", next(), hx.Hex(k), hx.Hex(b)))
 		}
 	}
-	// every byte value through every S-box lane of the first round: the first S-box input is
-	// X1^X2^X3^rk, so X1 = (value in lane j), X2 = X3 = 0 sweeps all 256 inputs of lane j (256 x 4 x 2)
+	// every byte value at every one of the 16 block positions (256 x 16 x enc/dec).  Positions 4..15 are the words
+	// X1, X2, X3: the first S-box input is X1^X2^X3^rk, so all 256 inputs of every S-box lane occur in round 1;
+	// positions 0..3 (X0) enter the S-boxes from round 2 on
 	laneKey := r.Bytes(16)
-	for lane := 0; lane < 4; lane++ {
+	for pos := 0; pos < 16; pos++ {
 		for v := 0; v < 256; v++ {
 			b := make([]byte, 16)
-			b[4+lane] = byte(v)
+			b[pos] = byte(v)
 			emit(fmt.Sprintf("E %d %s %s", next(), hx.Hex(laneKey), hx.Hex(b)))
 			emit(fmt.Sprintf("D %d %s %s", next(), hx.Hex(laneKey), hx.Hex(b)))
 		}
